@@ -19,6 +19,12 @@ FIXED = [
  ("C01", "fix: an empty range (b < a) has length 0", "{{ (5..1) | join }} panicked in makeslice; {{ (maxint..maxint) | first }} never terminated"),
  ("C01", "fix: struct property lookup ignores unexported", "{{ st.priv }} on an unexported field and {{ time[''] }} panicked in reflect.Value.Interface"),
  ("C01", "fix: cycle reports an error instead of panicking", "{% assign forloop = 1 %}{% cycle 'a' %} panicked on an unchecked type assertion"),
+ ("C11", "fix: a for loop over nil or an undefined variable renders its else", "{% for i in nil %}..{% else %}E{% endfor %} (also undefined variables and non-iterables) rendered nothing instead of the else branch"),
+ ("C09", "fix: an ordered map (yaml.MapSlice) equals itself", "{% if m == m %} was false for a yaml.MapSlice binding (== not reflexive)"),
+ ("C17", "fix: modulo by zero is an error", "{{ 5 | modulo: 0 }} printed NaN instead of reporting an error"),
+ ("C17", "fix: round is exact for large whole numbers", "{{ 9007199254740991 | round }} gave 9007199254740992 (operands and result exactly representable)"),
+ ("C16", "fix: capitalize upper-cases the first character", "{{ 'ébc' | capitalize }} produced invalid UTF-8 (first byte upper-cased)"),
+ ("C15", "fix: the size filter counts the elements of a range", "{{ (1..3) | size }} printed 0 although array filters accept ranges"),
  ("C01", "fix: property access on a map whose keys are not strings", "{{ m.foo }} / {{ m.size }} on a map[int]string panicked in reflect.Value.MapIndex"),
 ]
 KNOWN = [
